@@ -6,11 +6,14 @@ package zz_verifrt
 // functions are never called.
 
 import (
+	"crypto/cipher"
+	"crypto/ecdh"
 	"crypto/ed25519"
 	"hash"
 	"io"
 	"sync"
 
+	"filippo.io/edwards25519"
 	b58 "github.com/mr-tron/base58/base58"
 	"github.com/zeebo/blake3"
 )
@@ -143,7 +146,7 @@ func Model_ed25519_NewKeyFromSeed(seed []byte) ed25519.PrivateKey {
 	}
 	k := make([]byte, 64)
 	copy(k, seed)
-	copy(k[32:], SigPub(seed))
+	copy(k[32:], modelEdPub(seed))
 	return k
 }
 
@@ -305,4 +308,350 @@ func Model_rand_Read(b []byte) (int, error) {
 func Model_rand_reader_Read(r any, b []byte) (int, error) {
 	copy(b, Bytes("env:rand", len(b), len(b)))
 	return len(b), nil
+}
+
+// ---- generic inverse pair (codec): enc injective, dec(enc(x)) = x, accepted text re-encodes to itself
+
+type invRec struct{ raw, txt []byte }
+
+type invPair struct {
+	name   string
+	encLen func(n int) int
+	encs   []invRec
+	decs   []invRec
+	decOK  []bool
+}
+
+func (p *invPair) enc(raw []byte) []byte {
+	txt := UF("inj/"+p.name+".enc", p.encLen(len(raw)), raw)
+	for i, d := range p.decs {
+		if len(d.txt) == len(txt) {
+			Axiom(Implies(BytesEq(d.txt, txt), And(p.decOK[i], BytesEq(d.raw, raw))))
+		}
+	}
+	p.encs = append(p.encs, invRec{raw: raw, txt: txt})
+	return txt
+}
+
+func (p *invPair) dec(txt []byte) ([]byte, bool) {
+	n := -1
+	for k := 0; k <= len(txt); k++ {
+		if p.encLen(k) == len(txt) {
+			n = k
+		}
+	}
+	if n < 0 {
+		return nil, false
+	}
+	ok := UFBool(p.name+".decok", txt)
+	raw := UF(p.name+".dec", n, txt)
+	for _, e := range p.encs {
+		if len(e.txt) == len(txt) {
+			Axiom(Implies(BytesEq(e.txt, txt), And(ok, BytesEq(e.raw, raw))))
+		}
+	}
+	p.decs = append(p.decs, invRec{raw: raw, txt: txt})
+	p.decOK = append(p.decOK, ok)
+	if !ok {
+		return nil, false
+	}
+	enc := UF("inj/"+p.name+".enc", len(txt), raw)
+	Axiom(BytesEq(enc, txt))
+	p.encs = append(p.encs, invRec{raw: raw, txt: txt})
+	return raw, true
+}
+
+// ---- S2 compression (klauspost): inverse pair, idealised output length n+2
+
+var s2pair = &invPair{name: "s2", encLen: func(n int) int { return n + 2 }}
+
+//gosmt:model github.com/klauspost/compress/s2.EncodeBetter
+func Model_s2_EncodeBetter(dst, src []byte) []byte { return s2pair.enc(src) }
+
+//gosmt:model github.com/klauspost/compress/s2.Encode
+func Model_s2_Encode(dst, src []byte) []byte { return s2pair.enc(src) }
+
+//gosmt:model github.com/klauspost/compress/s2.Decode
+func Model_s2_Decode(dst, src []byte) ([]byte, error) {
+	raw, ok := s2pair.dec(src)
+	if !ok {
+		return nil, errModel("s2: corrupt input")
+	}
+	if len(raw) <= cap(dst) {
+		// the real decoder reuses dst when it is large enough
+		dst = dst[:len(raw)]
+		copy(dst, raw)
+		return dst, nil
+	}
+	return raw, nil
+}
+
+// ---- SHA-512
+
+//gosmt:model crypto/sha512.New
+func Model_sha512_New() hash.Hash { return &ModelHasher{fam: "inj/sha512", size: 64} }
+
+//gosmt:model crypto/sha512.Sum512
+func Model_sha512_Sum512(data []byte) (out [64]byte) {
+	copy(out[:], UF("inj/sha512", 64, data))
+	return
+}
+
+// ---- AES block cipher: a permutation per key (only one 16-byte block per call, as the real Block)
+
+type aesRec struct{ key, in, out []byte }
+
+var aesEncs, aesDecs []aesRec
+
+type ModelAES struct{ key []byte }
+
+func (c *ModelAES) BlockSize() int { return 16 }
+func (c *ModelAES) Encrypt(dst, src []byte) {
+	if len(src) < 16 {
+		panic("crypto/aes: input not full block")
+	}
+	if len(dst) < 16 {
+		panic("crypto/aes: output not full block")
+	}
+	in := append([]byte{}, src[:16]...)
+	out := UF("aes.enc", 16, c.key, in)
+	for _, d := range aesDecs {
+		if len(d.key) == len(c.key) {
+			Axiom(Implies(And(BytesEq(d.key, c.key), BytesEq(d.out, in)), BytesEq(out, d.in)))
+		}
+	}
+	for _, e := range aesEncs {
+		if len(e.key) == len(c.key) {
+			Axiom(Implies(And(BytesEq(e.key, c.key), BytesEq(e.out, out)), BytesEq(e.in, in)))
+		}
+	}
+	aesEncs = append(aesEncs, aesRec{key: c.key, in: in, out: out})
+	copy(dst, out)
+}
+func (c *ModelAES) Decrypt(dst, src []byte) {
+	if len(src) < 16 {
+		panic("crypto/aes: input not full block")
+	}
+	if len(dst) < 16 {
+		panic("crypto/aes: output not full block")
+	}
+	in := append([]byte{}, src[:16]...)
+	out := UF("aes.dec", 16, c.key, in)
+	for _, e := range aesEncs {
+		if len(e.key) == len(c.key) {
+			Axiom(Implies(And(BytesEq(e.key, c.key), BytesEq(e.out, in)), BytesEq(out, e.in)))
+		}
+	}
+	for _, d := range aesDecs {
+		if len(d.key) == len(c.key) {
+			Axiom(Implies(And(BytesEq(d.key, c.key), BytesEq(d.out, out)), BytesEq(d.in, in)))
+		}
+	}
+	aesDecs = append(aesDecs, aesRec{key: c.key, in: in, out: out})
+	copy(dst, out)
+}
+
+//gosmt:model crypto/aes.NewCipher
+func Model_aes_NewCipher(key []byte) (cipher.Block, error) {
+	switch len(key) {
+	case 16, 24, 32:
+	default:
+		return nil, errModel("crypto/aes: invalid key size")
+	}
+	return &ModelAES{key: append([]byte{}, key...)}, nil
+}
+
+// ---- XChaCha20-Poly1305: ideal AEAD (engine intrinsics AeadSeal / AeadOpen, closed world)
+
+func AeadSeal(key, nonce, ad, pt []byte) []byte          { panic("engine only") }
+func AeadOpen(key, nonce, ad, ct []byte) ([]byte, bool) { panic("engine only") }
+
+type ModelAEAD struct {
+	key       []byte
+	nonceSize int
+}
+
+func (a *ModelAEAD) NonceSize() int { return a.nonceSize }
+func (a *ModelAEAD) Overhead() int  { return 16 }
+func (a *ModelAEAD) Seal(dst, nonce, plaintext, additionalData []byte) []byte {
+	if len(nonce) != a.nonceSize {
+		panic("chacha20poly1305: bad nonce length passed to Seal")
+	}
+	return append(dst, AeadSeal(a.key, nonce, additionalData, plaintext)...)
+}
+func (a *ModelAEAD) Open(dst, nonce, ciphertext, additionalData []byte) ([]byte, error) {
+	if len(nonce) != a.nonceSize {
+		panic("chacha20poly1305: bad nonce length passed to Open")
+	}
+	if len(ciphertext) < 16 {
+		return nil, errModel("chacha20poly1305: message authentication failed")
+	}
+	pt, ok := AeadOpen(a.key, nonce, additionalData, ciphertext)
+	if !ok {
+		return nil, errModel("chacha20poly1305: message authentication failed")
+	}
+	return append(dst, pt...), nil
+}
+
+//gosmt:model golang.org/x/crypto/chacha20poly1305.NewX
+func Model_chacha20poly1305_NewX(key []byte) (cipher.AEAD, error) {
+	if len(key) != 32 {
+		return nil, errModel("chacha20poly1305: bad key length")
+	}
+	return &ModelAEAD{key: append([]byte{}, key...), nonceSize: 24}, nil
+}
+
+//gosmt:model golang.org/x/crypto/chacha20poly1305.New
+func Model_chacha20poly1305_New(key []byte) (cipher.AEAD, error) {
+	if len(key) != 32 {
+		return nil, errModel("chacha20poly1305: bad key length")
+	}
+	return &ModelAEAD{key: append([]byte{}, key...), nonceSize: 12}, nil
+}
+
+// ---- X25519 / Ed25519 <-> Curve25519 (ideal Diffie-Hellman)
+
+type dhRec struct{ k, p, out []byte }
+
+var dhApps []dhRec
+
+func x25519Base(k []byte) []byte { return UF("inj/x25519.base", 32, k) }
+
+func x25519DH(k, p []byte) []byte {
+	out := UF("x25519.dh", 32, k, p)
+	bk := x25519Base(k)
+	for _, d := range dhApps {
+		// dh(k1, base(k2)) == dh(k2, base(k1))
+		Axiom(Implies(And(BytesEq(p, x25519Base(d.k)), BytesEq(d.p, bk)), BytesEq(out, d.out)))
+	}
+	dhApps = append(dhApps, dhRec{k: k, p: p, out: out})
+	return out
+}
+
+//gosmt:model (*crypto/ecdh.x25519Curve).NewPrivateKey
+func Model_x25519_NewPrivateKey(c any, key []byte) (*ecdh.PrivateKey, error) {
+	if len(key) != 32 {
+		return nil, errModel("crypto/ecdh: invalid private key size")
+	}
+	p := new(ecdh.PrivateKey)
+	SideSet(p, append([]byte{}, key...))
+	return p, nil
+}
+
+//gosmt:model (*crypto/ecdh.x25519Curve).NewPublicKey
+func Model_x25519_NewPublicKey(c any, key []byte) (*ecdh.PublicKey, error) {
+	if len(key) != 32 {
+		return nil, errModel("crypto/ecdh: invalid public key")
+	}
+	p := new(ecdh.PublicKey)
+	SideSet(p, append([]byte{}, key...))
+	return p, nil
+}
+
+//gosmt:model (*crypto/ecdh.PrivateKey).ECDH
+func Model_ecdh_PrivateKey_ECDH(k *ecdh.PrivateKey, remote *ecdh.PublicKey) ([]byte, error) {
+	kb := SideGet(k).([]byte)
+	pb := SideGet(remote).([]byte)
+	out := x25519DH(kb, pb)
+	zero := true
+	for _, b := range out {
+		zero = And(zero, b == 0)
+	}
+	if zero {
+		return nil, errModel("crypto/ecdh: bad X25519 remote ECDH input: low order point")
+	}
+	return append([]byte{}, out...), nil
+}
+
+//gosmt:model (*crypto/ecdh.PrivateKey).Bytes
+func Model_ecdh_PrivateKey_Bytes(k *ecdh.PrivateKey) []byte {
+	return append([]byte{}, SideGet(k).([]byte)...)
+}
+
+//gosmt:model (*crypto/ecdh.PublicKey).Bytes
+func Model_ecdh_PublicKey_Bytes(k *ecdh.PublicKey) []byte {
+	return append([]byte{}, SideGet(k).([]byte)...)
+}
+
+//gosmt:model (*crypto/ecdh.PrivateKey).PublicKey
+func Model_ecdh_PrivateKey_PublicKey(k *ecdh.PrivateKey) *ecdh.PublicKey {
+	p := new(ecdh.PublicKey)
+	SideSet(p, x25519Base(SideGet(k).([]byte)))
+	return p
+}
+
+type edPubRec struct{ seed, pub []byte }
+
+var edPubs []edPubRec
+var edMonts []invRec // raw = masked ed bytes, txt = montgomery u
+
+func clampSha512(seed []byte) []byte {
+	d := UF("inj/sha512", 64, seed)
+	k := append([]byte{}, d[:32]...)
+	k[0] &= 248
+	k[31] &= 127
+	k[31] |= 64
+	return k
+}
+
+// modelEdPub is the Ed25519 public key of a seed; it records the pair so that the birational
+// link mont(pub(seed)) == base(clamp(sha512(seed))) can be instantiated.
+func modelEdPub(seed []byte) []byte {
+	pub := SigPub(seed)
+	for _, r := range edPubs {
+		if len(r.seed) == len(seed) && IsConcrete(seed) && IsConcrete(r.seed) && BytesEq(r.seed, seed) {
+			return pub
+		}
+	}
+	s := append([]byte{}, seed...)
+	for _, m := range edMonts {
+		linkEdMont(s, pub, m)
+	}
+	edPubs = append(edPubs, edPubRec{seed: s, pub: pub})
+	return pub
+}
+
+func maskSign(ed []byte) []byte {
+	e := append([]byte{}, ed...)
+	e[31] &= 0x7f
+	return e
+}
+
+func linkEdMont(seed, pub []byte, m invRec) {
+	Axiom(Implies(BytesEq(maskSign(pub), m.raw), BytesEq(m.txt, x25519Base(clampSha512(seed)))))
+}
+
+// edToMont maps a (valid) Ed25519 point encoding to its Montgomery u-coordinate; the sign bit of
+// x does not influence the result.
+func edToMont(ed []byte) []byte {
+	raw := maskSign(ed)
+	u := UF("inj/ed2mont", 32, raw)
+	for _, m := range edMonts {
+		if IsConcrete(raw) && IsConcrete(m.raw) && BytesEq(m.raw, raw) {
+			return u
+		}
+	}
+	m := invRec{raw: raw, txt: u}
+	for _, r := range edPubs {
+		linkEdMont(r.seed, r.pub, m)
+	}
+	edMonts = append(edMonts, m)
+	return u
+}
+
+//gosmt:model (*filippo.io/edwards25519.Point).SetBytes
+func Model_edwards25519_Point_SetBytes(p *edwards25519.Point, b []byte) (*edwards25519.Point, error) {
+	if len(b) != 32 {
+		return nil, errModel("edwards25519: invalid point encoding length")
+	}
+	if !UFBool("edwards25519.valid", maskSign(b)) {
+		return nil, errModel("edwards25519: invalid point encoding")
+	}
+	SideSet(p, append([]byte{}, b...))
+	return p, nil
+}
+
+//gosmt:model (*filippo.io/edwards25519.Point).BytesMontgomery
+func Model_edwards25519_Point_BytesMontgomery(p *edwards25519.Point) []byte {
+	return append([]byte{}, edToMont(SideGet(p).([]byte))...)
 }
